@@ -138,3 +138,77 @@ variant("slc-explicit-range", "C13", ARRAY, """        start, stop, step = key.i
         return False, start, stop, step""", """        r = key.indices(size)
         return False, r[0], r[1], r[2]""")
 variant("slc-range-size-neg-form", "C13", ARRAY, "return (start - stop - step - 1) // (-step)", "return (start - stop + (-step) - 1) // (-step)")
+
+# ---- C12 ---------------------------------------------------------------------------------------
+mutant("arr-ge-as-gt", "C12", ARRAY, """    def __ge__(self, other: IntOperand2D) -> "BoolArray2D":
+        return _elementwise(Op.GE, self.shape, [self, other])""", """    def __ge__(self, other: IntOperand2D) -> "BoolArray2D":
+        return _elementwise(Op.GT, self.shape, [self, other])""", "OPC-6A")
+mutant("arr-rsub-order", "C12", ARRAY, """    def __rsub__(self, other: IntOperand1D) -> "IntArray1D":
+        return _elementwise(Op.SUB, self.shape, [other, self])""", """    def __rsub__(self, other: IntOperand1D) -> "IntArray1D":
+        return _elementwise(Op.SUB, self.shape, [self, other])""", "OPC-6A")
+mutant("arr-ne-as-iff", "C12", ARRAY, """    def __ne__(self, other: BoolOperand1D) -> "BoolArray1D":  # type: ignore
+        return _elementwise(Op.XOR, self.shape, [self, other])""", """    def __ne__(self, other: BoolOperand1D) -> "BoolArray1D":  # type: ignore
+        return _elementwise(Op.IFF, self.shape, [self, other])""", "OPC-6A")
+mutant("arr-elementwise-first-only", "C12", ARRAY, "                expr_operands.append(operand.data[i])", "                expr_operands.append(operand.data[0])", "OPC-6A")
+mutant("arr-shape-check-dropped", "C12", ARRAY, "            if operand.shape is not None and operand.shape != shape:", "            if operand.shape is None:", "TYP")
+mutant("arr-int-like-bool", "C12", ARRAY, "return isinstance(value, (IntExpr, int, IntArray1D, IntArray2D)) and not isinstance(value, bool)", "return isinstance(value, (IntExpr, int, IntArray1D, IntArray2D))", "TYP", "the original defect")
+mutant("arr-cond-unchecked", "C12", ARRAY, """    def cond(self, t: IntOperand1D, f: IntOperand1D) -> "IntArray1D":
+        res = _elementwise(Op.IF, self.shape, [self, t, f])
+        if res is NotImplemented:
+            raise TypeError("unsupported argument type(s) for operator 'cond'")
+        return res""", """    def cond(self, t: IntOperand1D, f: IntOperand1D) -> "IntArray1D":
+        res = _elementwise(Op.IF, self.shape, [self, t, f])
+        return res""", "TYP")
+mutant("cons-then-unchecked", "C12", CONS, "        res = _make_bool_expr(Op.IMP, [x, y])", "        res = BoolExpr(Op.IMP, [x, y])", "TYP", "the original defect")
+mutant("expr-is-bool-op-xor", "C12", EXPR, """        Op.IFF,
+        Op.XOR,
+        Op.IMP,
+        Op.ALLDIFF,
+    ]
+
+
+def is_int_op""", """        Op.IFF,
+        Op.IMP,
+        Op.ALLDIFF,
+    ]
+
+
+def is_int_op""", "OPC-5")
+mutant("expr-make-bool-imp-int", "C12", EXPR, "    elif op in [Op.AND, Op.OR, Op.IFF, Op.XOR, Op.IMP]:\n        if len(operands) != 2 or not all(map(_is_bool_expr_like, operands)):", "    elif op in [Op.AND, Op.OR, Op.IFF, Op.XOR, Op.IMP]:\n        if len(operands) != 2 or not _is_bool_expr_like(operands[0]):", "OPC-5")
+mutant("arr-elementwise-if-2", "C12", ARRAY, """        if len(operands) != 3 or not (
+            _is_bool_like(operands[0]) and _is_int_like(operands[1]) and _is_int_like(operands[2])
+        ):""", """        if len(operands) != 3 or not (
+            _is_bool_like(operands[0]) and _is_int_like(operands[1])
+        ):""", "OPC-5")
+mutant("arr-conv2d-window", "C12", ARRAY, "component = self[y : y + height, x : x + width]", "component = self[y : y + height, x : x + height]", "AGG")
+mutant("arr-conv2d-shape", "C12", ARRAY, "r_width = max(0, self.shape[1] - width + 1)", "r_width = max(0, self.shape[1] - width)", "AGG")
+mutant("arr-four-neighbors-guard", "C12", ARRAY, """    if y2 < height - 1:
+        ret.append((y2 + 1, x2))""", """    if y2 < height:
+        ret.append((y2 + 1, x2))""", "AGG")
+mutant("arr-four-neighbors-order", "C12", ARRAY, """    if y2 > 0:
+        ret.append(array[y2 - 1, x2])
+    if y2 < height - 1:
+        ret.append(array[y2 + 1, x2])""", """    if y2 < height - 1:
+        ret.append(array[y2 + 1, x2])
+    if y2 > 0:
+        ret.append(array[y2 - 1, x2])""", "AGG")
+mutant("arr-fold-or-as-and", "C12", ARRAY, """    def fold_or(self) -> BoolExpr:
+        return BoolExpr(Op.OR, self.data)
+
+    def fold_and(self) -> BoolExpr:
+        return BoolExpr(Op.AND, self.data)
+
+    @overload
+    def __getitem__(self, key: int) -> BoolExpr: ...""", """    def fold_or(self) -> BoolExpr:
+        return BoolExpr(Op.AND, self.data)
+
+    def fold_and(self) -> BoolExpr:
+        return BoolExpr(Op.AND, self.data)
+
+    @overload
+    def __getitem__(self, key: int) -> BoolExpr: ...""", "AGG")
+variant("arr-rand-commuted", "C12", ARRAY, """    def __rand__(self, other: BoolOperand1D) -> "BoolArray1D":
+        return _elementwise(Op.AND, self.shape, [other, self])""", """    def __rand__(self, other: BoolOperand1D) -> "BoolArray1D":
+        return _elementwise(Op.AND, self.shape, [self, other])""")
+variant("expr-is-bool-op-tuple", "C12", EXPR, "def is_int_op(op: Op) -> bool:\n    return op in [Op.INT_CONSTANT, Op.NEG, Op.ADD, Op.SUB, Op.IF]", "def is_int_op(op: Op) -> bool:\n    return op in (Op.IF, Op.INT_CONSTANT, Op.NEG, Op.ADD, Op.SUB)")
+variant("arr-is-int-like-inline", "C12", ARRAY, "return isinstance(value, (IntExpr, int, IntArray1D, IntArray2D)) and not isinstance(value, bool)", "return not isinstance(value, bool) and (isinstance(value, (IntExpr, IntArray1D, IntArray2D)) or isinstance(value, int))")
